@@ -1,5 +1,6 @@
 import DAVerif.Drv.OpsDrv
 import DAVerif.Sql.ThetaSql
+import DAVerif.Sql.WithForm
 /-! Driver suites for the SQL layer: `k5_near` (NearSQL skeleton of a pipeline), `k5_sem` (result of the generated SQL). -/
 namespace DAVerif.Drv.SqlDrv
 open Lean DAVerif DAVerif.Drv DAVerif.Sql
@@ -10,7 +11,7 @@ def cfgOfJson (c : Json) : SqlCfg :=
   { merges := merges, emulateRightFull := dialect == "sqlite" }
 
 def engineOfJson (c : Json) : EngineCfg :=
-  match optKey c "dialect" with
+  match (optKey c "engine").orElse (fun _ => optKey c "dialect") with
   | some (.str "postgres") => EngineCfg.postgres
   | _ => EngineCfg.sqlite
 
@@ -59,6 +60,52 @@ def handleSqlSem (c : Json) : Except String Json := do
       | .ok t => return Json.mkObj [("ok", tableToJson t)]
       | .error e => return errToJson e
 
-def handlers : List (String × Handler) := [("k5_near", handleNear), ("k5_sem", handleSqlSem)]
+/-- `is_nan` / `is_inf` are rendered per dialect (Python user functions on SQLite, comparisons with float literals on
+PostgreSQL); the concrete interpretation `ThetaSql` is SQLite's, so pipelines using them are not compared for the
+PostgreSQL dialect text -/
+partial def mentions (names : List String) : Term → Bool
+  | .app op args _ _ => names.contains op || args.any (mentions names)
+  | _ => false
+
+partial def opsMention (names : List String) : Ops → Bool
+  | .table _ _ => false
+  | .extend s ops _ _ _ _ | .project s ops _ => ops.any (fun kv => mentions names kv.2) || opsMention names s
+  | .selectRows s e => mentions names e || opsMention names s
+  | .selectCols s _ | .dropCols s _ | .order s _ _ _ | .rename s _ | .mapCols s _ _ | .convert s _ => opsMention names s
+  | .join a b _ _ _ | .concat a b _ _ _ => opsMention names a || opsMention names b
+
+def boolOpt (c : Json) (k : String) (d : Bool) : Bool :=
+  match optKey c k with | some (.bool b) => b | _ => d
+
+/-- WITH-form skeleton: names of the emitted CTEs in order, with their bound columns, and the last step -/
+def handleWith (c : Json) : Except String Json := do
+  let ops ← opsOfJson (← obj c "ops")
+  match toNearSql (cfgOfJson c) ops with
+  | .error e => return errToJson e
+  | .ok n =>
+    let (last, steps, _) := toWithForm (if boolOpt c "cte_elim" false then some [] else none) n
+    return Json.mkObj [("ok", Json.mkObj [
+      ("steps", Json.arr (steps.map (fun st => Json.mkObj [("name", .str st.name), ("near", nearSkel st.near),
+          ("cols", optStrs st.cols), ("force", .bool st.force)])).toArray),
+      ("last", nearSkel last)])]
+
+/-- result of `to_sql` under formatting / optimisation options -/
+def handleSqlOpt (c : Json) : Except String Json := do
+  let ops ← opsOfJson (← obj c "ops")
+  let env ← envOfJson (← obj c "tables")
+  let dialectPg := match optKey c "dialect" with | some (.str "postgres") => true | _ => false
+  match (OpsDrv.supported ops).orElse (fun _ =>
+      if dialectPg && opsMention ["is_nan", "is_inf", "is_bad"] ops then some "dialect-specific op" else none) with
+  | some why => return Json.mkObj [("unsupported", .str why)]
+  | none =>
+    match toNearSql (cfgOfJson c) ops with
+    | .error e => return errToJson e
+    | .ok n =>
+      match semToSql ThetaSql.concrete (engineOfJson c) env (boolOpt c "use_with" true) (boolOpt c "cte_elim" false) n with
+      | .ok t => return Json.mkObj [("ok", tableToJson t)]
+      | .error e => return errToJson e
+
+def handlers : List (String × Handler) :=
+  [("k5_near", handleNear), ("k5_sem", handleSqlSem), ("k5_with", handleWith), ("k5_semopt", handleSqlOpt)]
 
 end DAVerif.Drv.SqlDrv
